@@ -256,6 +256,29 @@ def check_navigate(bt, refs, out):
         if cur.to_text() != step_base_text:
             out.fail('c07.base-modified', 'navigate(%r) changed its base from %r to %r' % (ref, step_base_text, cur.to_text()))
             return False
+        # references given as URL objects whose query was put together / taken apart through query_params
+        # (what counts is what the reference *is*, i.e. its to_text(), not how it was parsed)
+        ru = URL(ref)
+        if ru.query_params:
+            noq = ref.split('#')[0].split('?')[0] + ('#' + ref.split('#', 1)[1] if '#' in ref else '')
+            built = URL(noq)
+            for k, v in ru.query_params.items(multi=True):
+                built.query_params.add(k, v)
+            if built.to_text() == ru.to_text():
+                n3 = _call(lambda: cur.navigate(built))
+                if n3[0] != 'ok' or n3[1].to_text() != got:
+                    out.fail('c07.url-object-ref.built-query', 'from %r: navigate(<URL %r with the query added through query_params>) -> %r, navigate(%r) -> %r' % (
+                        step_base_text, noq, n3[1].to_text() if n3[0] == 'ok' else n3, ref, got))
+                    return False
+            emptied = URL(ref)
+            emptied.query_params.clear()
+            if emptied.to_text() == noq:
+                want = _call(lambda: cur.navigate(noq))
+                n4 = _call(lambda: cur.navigate(emptied))
+                if want[0] == 'ok' and (n4[0] != 'ok' or n4[1].to_text() != want[1].to_text()):
+                    out.fail('c07.url-object-ref.emptied-query', 'from %r: navigate(<URL %r with its query_params cleared>) -> %r, navigate(%r) -> %r' % (
+                        step_base_text, ref, n4[1].to_text() if n4[0] == 'ok' else n4, noq, want[1].to_text()))
+                    return False
         cur = n[1]
     if base.to_text() != base_before or not (base == base_copy):
         out.fail('c07.base-modified', 'base %r changed to %r after navigate(%r)' % (base_before, base.to_text(), refs))
@@ -281,6 +304,29 @@ def run(case):
     if tuple(u.path_parts) != once or u.to_text() != t_once:
         return out.fail('c07.normalize-not-idempotent', 'normalize() of path_parts %r gives %r, a second normalize() gives %r' % (
             ['', ] + list(case['norm_parts']), once, tuple(u.path_parts)))
+    # the same base object used again after its path was changed through the public attributes: the result may only depend on
+    # what the base *is now* (its to_text()), never on an earlier navigate() from the same object
+    kinds = ['path_parts', 'normalize', 'path', 'host']
+    for mi, ref in enumerate(refs):
+        b = URL(bt)
+        w = _call(b.navigate, ref)
+        how = kinds[(len(case['norm_parts']) + mi) % len(kinds)]
+        if how == 'path_parts':
+            b.path_parts = tuple([''] + [p for p in case['norm_parts'] if p not in ('.', '..')] + ['zz', 'last'])
+        elif how == 'normalize':
+            b.path_parts = tuple(list(b.path_parts) + ['sub', '..'])
+            b.normalize()
+        elif how == 'path':
+            b.path = '/other/dir/file'
+        else:
+            b.host = 'changed.example'
+        now = b.to_text()
+        a1 = _call(b.navigate, ref)
+        a2 = _call(lambda: URL(now).navigate(ref))
+        if a1[0] != a2[0] or (a1[0] == 'ok' and a1[1].to_text() != a2[1].to_text()):
+            return out.fail('c07.stale-base-state', 'base %r, navigate(%r), then base changed via %s to %r: navigate(%r) on the same object -> %r, '
+                            'on a fresh URL(%r) -> %r' % (bt, ref, how, now, ref, a1[1].to_text() if a1[0] == 'ok' else a1, now,
+                                                          a2[1].to_text() if a2[0] == 'ok' else a2))
     nontriv = False
     for r, text in zip(case['refs'], refs):
         if r['kind'] in ('abs', 'rel') and any(s in ('.', '..', '') for s in text.split('?')[0].split('#')[0].split('/')[1 if text.startswith('/') else 0:]):
